@@ -1869,4 +1869,311 @@ theorem filterSpec_map {α β : Type} (g : α → β) (l : List α) (m : List (O
     | nil => simp [filterSpec]
     | cons b m => rcases b with _ | _ | _ <;> simp [filterSpec, ih]
 
+/-! ### dictionary merge -/
+
+theorem lookup_mem {α β : Type} [BEq α] [LawfulBEq α] (l : List (α × β)) (a : α) (b : β)
+    (h : l.lookup a = some b) : (a, b) ∈ l := by
+  induction l with
+  | nil => simp [List.lookup] at h
+  | cons x xs ih =>
+    obtain ⟨k, v⟩ := x
+    simp only [List.lookup] at h
+    by_cases hk : a == k
+    · simp [hk] at h
+      have : a = k := by simpa using hk
+      subst this; subst h; simp
+    · simp [hk] at h
+      exact List.mem_cons_of_mem _ (ih h)
+
+/-- every interner bucket points at a merged value equal to the value it remembers -/
+def MInv (dicts : List Dict) (st : MergeState) : Prop :=
+  ∀ b cur v, (b, (cur, v)) ∈ st.buckets → (st.indices[v]?).map (valAt dicts) = some cur
+
+theorem getElem?_append_stable {α : Type} (l ext : List α) (j : Nat) (x : α) (h : l[j]? = some x) :
+    (l ++ ext)[j]? = some x := by
+  have hj : j < l.length := by
+    rcases Nat.lt_or_ge j l.length with h' | h'
+    · exact h'
+    · rw [List.getElem?_eq_none h'] at h; cases h
+  rw [List.getElem?_append_left hj]; exact h
+
+theorem map_getElem?_stable {α β : Type} (f : α → β) (l ext : List α) (j : Nat) (y : β)
+    (h : (l[j]?).map f = some y) : ((l ++ ext)[j]?).map f = some y := by
+  cases hx : l[j]? with
+  | none => rw [hx] at h; cases h
+  | some x => rw [getElem?_append_stable l ext j x hx]; rw [hx] at h; exact h
+
+theorem internStep_spec (hash : Option Bytes → Nat) (maxKey : Nat) (dicts : List Dict) (st st' : MergeState)
+    (dIdx : Nat) (vv : Nat × Option Bytes) (k : Nat)
+    (hinv : MInv dicts st) (hval : vv.2 = valAt dicts (dIdx, vv.1))
+    (h : internStep hash maxKey st dIdx vv = some (st', k)) :
+    MInv dicts st' ∧ (∃ ext, st'.indices = st.indices ++ ext) ∧
+    (st'.indices[k]?).map (valAt dicts) = some vv.2 := by
+  have hfresh : ∀ (hh : (if st.indices.length > maxKey then none
+      else some ({ buckets := (hash vv.2, (vv.2, st.indices.length)) :: st.buckets,
+                   indices := st.indices ++ [(dIdx, vv.1)] }, st.indices.length) : Option (MergeState × Nat)) = some (st', k)),
+      MInv dicts st' ∧ (∃ ext, st'.indices = st.indices ++ ext) ∧ (st'.indices[k]?).map (valAt dicts) = some vv.2 := by
+    intro hh
+    by_cases ho : st.indices.length > maxKey
+    · simp [ho] at hh
+    · simp only [ho, if_false, Option.some.injEq, Prod.mk.injEq] at hh
+      obtain ⟨h1, h2⟩ := hh
+      subst h1; subst h2
+      refine ⟨?_, ⟨[(dIdx, vv.1)], rfl⟩, ?_⟩
+      · intro b cur v hm
+        simp only [List.mem_cons, Prod.mk.injEq] at hm
+        rcases hm with ⟨_, h2, h3⟩ | hm
+        · subst h2; subst h3
+          simp [hval]
+        · exact map_getElem?_stable _ _ _ _ _ (hinv b cur v hm)
+      · simp [hval]
+  unfold internStep at h
+  simp only at h
+  cases hl : st.buckets.lookup (hash vv.2) with
+  | none => rw [hl] at h; exact hfresh h
+  | some cv =>
+    obtain ⟨cur, v⟩ := cv
+    rw [hl] at h
+    simp only at h
+    by_cases hc : cur = vv.2
+    · simp only [hc, if_true, Option.some.injEq, Prod.mk.injEq] at h
+      obtain ⟨h1, h2⟩ := h
+      subst h1; subst h2
+      exact ⟨hinv, ⟨[], by simp⟩, by rw [← hc]; exact hinv _ _ _ (lookup_mem _ _ _ hl)⟩
+    · simp only [hc, if_false] at h
+      exact hfresh h
+
+theorem mapDict_spec (hash : Option Bytes → Nat) (maxKey : Nat) (dicts : List Dict) (dIdx : Nat) :
+    ∀ (mv : List (Nat × Option Bytes)) (st st' : MergeState) (mapping m' : List Nat) (done : List (Nat × Option Bytes)),
+      MInv dicts st →
+      (∀ vv ∈ mv ++ done, vv.2 = valAt dicts (dIdx, vv.1) ∧ vv.1 < mapping.length) →
+      (∀ vv ∈ done, (st.indices[mapping.getD vv.1 0]?).map (valAt dicts) = some vv.2) →
+      mapDict hash maxKey dIdx mv st mapping = some (st', m') →
+      MInv dicts st' ∧ (∃ ext, st'.indices = st.indices ++ ext) ∧ m'.length = mapping.length ∧
+      (∀ vv ∈ mv ++ done, (st'.indices[m'.getD vv.1 0]?).map (valAt dicts) = some vv.2) := by
+  intro mv
+  induction mv with
+  | nil =>
+    intro st st' mapping m' done hinv _ hdone h
+    simp only [mapDict, Option.some.injEq, Prod.mk.injEq] at h
+    obtain ⟨h1, h2⟩ := h
+    subst h1; subst h2
+    exact ⟨hinv, ⟨[], by simp⟩, rfl, by simpa using hdone⟩
+  | cons vv rest ih =>
+    intro st st' mapping m' done hinv hvals hdone h
+    simp only [mapDict] at h
+    cases hi : internStep hash maxKey st dIdx vv with
+    | none => rw [hi] at h; cases h
+    | some r =>
+      obtain ⟨st1, k⟩ := r
+      rw [hi] at h
+      simp only at h
+      have hvv := hvals vv (by simp)
+      obtain ⟨i1, ⟨ext1, e1⟩, i3⟩ := internStep_spec hash maxKey dicts st st1 dIdx vv k hinv hvv.1 hi
+      have hstep := ih st1 st' (mapping.set vv.1 k) m' (vv :: done) i1
+        (by
+          intro x hx
+          have : x ∈ (vv :: rest) ++ done := by
+            simp only [List.mem_append, List.mem_cons] at hx ⊢
+            rcases hx with hx | hx | hx
+            · exact Or.inl (Or.inr hx)
+            · exact Or.inl (Or.inl hx)
+            · exact Or.inr hx
+          have := hvals x this
+          simpa using this)
+        (by
+          intro x hx
+          simp only [List.mem_cons] at hx
+          by_cases hxe : x.1 = vv.1
+          · -- the slot just written: same value index, hence the same value
+            have hx2 : x.2 = vv.2 := by
+              have hxm : x ∈ (vv :: rest) ++ done := by
+                rcases hx with hx | hx
+                · subst hx; simp
+                · simp [hx]
+              rw [(hvals x hxm).1, hvv.1, hxe]
+            rw [hxe, hx2]
+            have : (mapping.set vv.1 k).getD vv.1 0 = k := by
+              simp [List.getD_eq_getElem?_getD, List.getElem?_set, hvv.2]
+            rw [this]; exact i3
+          · rcases hx with hx | hx
+            · subst hx; exact absurd rfl hxe
+            · have : (mapping.set vv.1 k).getD x.1 0 = mapping.getD x.1 0 := by
+                simp only [List.getD_eq_getElem?_getD, List.getElem?_set]
+                have : ¬ vv.1 = x.1 := fun e => hxe e.symm
+                simp [this]
+              rw [this, e1]
+              exact map_getElem?_stable _ _ _ _ _ (hdone x hx))
+        h
+      obtain ⟨j1, ⟨ext2, e2⟩, j3, j4⟩ := hstep
+      refine ⟨j1, ⟨ext1 ++ ext2, by rw [e2, e1, List.append_assoc]⟩, by simpa using j3, ?_⟩
+      intro x hx
+      apply j4 x
+      simp only [List.mem_append, List.mem_cons] at hx ⊢
+      rcases hx with (hx | hx) | hx
+      · exact Or.inr (Or.inl hx)
+      · exact Or.inl hx
+      · exact Or.inr (Or.inr hx)
+
+
+theorem mem_indicesAux (m : List Bool) : ∀ k v, v ∈ indicesAux m k ↔ (k ≤ v ∧ m[v - k]? = some true) := by
+  induction m with
+  | nil => intro k v; simp [indicesAux]
+  | cons b m ih =>
+    intro k v
+    cases b
+    · simp only [indicesAux]
+      rw [ih (k + 1) v]
+      constructor
+      · rintro ⟨h1, h2⟩
+        refine ⟨by omega, ?_⟩
+        have : v - k = (v - (k + 1)) + 1 := by omega
+        rw [this]; simpa using h2
+      · rintro ⟨h1, h2⟩
+        by_cases hv : v = k
+        · subst hv; simp at h2
+        · refine ⟨by omega, ?_⟩
+          have : v - k = (v - (k + 1)) + 1 := by omega
+          rw [this] at h2; simpa using h2
+    · simp only [indicesAux, List.mem_cons]
+      rw [ih (k + 1) v]
+      constructor
+      · rintro (h | ⟨h1, h2⟩)
+        · subst h; simp
+        · refine ⟨by omega, ?_⟩
+          have : v - k = (v - (k + 1)) + 1 := by omega
+          rw [this]; simpa using h2
+      · rintro ⟨h1, h2⟩
+        by_cases hv : v = k
+        · exact Or.inl hv
+        · right
+          refine ⟨by omega, ?_⟩
+          have : v - k = (v - (k + 1)) + 1 := by omega
+          rw [this] at h2; simpa using h2
+
+theorem length_valuesMask (d : Dict) (mask : Option (List Bool)) : (valuesMask d mask).length = d.values.length := by
+  simp [valuesMask]
+
+theorem mergeLoop_spec (hash : Option Bytes → Nat) (maxKey : Nat) (dicts : List Dict) (masks : Option (List (List Bool))) :
+    ∀ (ds : List Dict) (dIdx : Nat) (st st' : MergeState) (mappings : List (List Nat)),
+      (∀ i, ds[i]? = dicts[dIdx + i]?) → MInv dicts st →
+      mergeLoop hash maxKey masks ds dIdx st = some (st', mappings) →
+      MInv dicts st' ∧ (∃ ext, st'.indices = st.indices ++ ext) ∧
+      ∀ i d, ds[i]? = some d → ∀ v, (valuesMask d (masks.bind (·[dIdx + i]?)))[v]? = some true →
+        (st'.indices[(mappings.getD i []).getD v 0]?).map (valAt dicts) = some ((d.values[v]?).join) := by
+  intro ds
+  induction ds with
+  | nil =>
+    intro dIdx st st' mappings _ hinv h
+    simp only [mergeLoop, Option.some.injEq, Prod.mk.injEq] at h
+    obtain ⟨h1, h2⟩ := h
+    subst h1; subst h2
+    exact ⟨hinv, ⟨[], by simp⟩, by intro i d hd; simp at hd⟩
+  | cons d ds ih =>
+    intro dIdx st st' mappings hds hinv h
+    simp only [mergeLoop] at h
+    cases hm : mapDict hash maxKey dIdx (maskedValues d (valuesMask d (masks.bind (·[dIdx]?)))) st
+        (List.replicate d.values.length 0) with
+    | none => rw [hm] at h; cases h
+    | some r =>
+      obtain ⟨st1, mapping⟩ := r
+      rw [hm] at h
+      simp only at h
+      cases hr : mergeLoop hash maxKey masks ds (dIdx + 1) st1 with
+      | none => rw [hr] at h; cases h
+      | some r2 =>
+        obtain ⟨st2, rest⟩ := r2
+        rw [hr] at h
+        simp only [Option.some.injEq, Prod.mk.injEq] at h
+        obtain ⟨h1, h2⟩ := h
+        subst h1; subst h2
+        have hd0 : dicts[dIdx]? = some d := by have := hds 0; simpa using this.symm
+        have hentries : ∀ vv ∈ maskedValues d (valuesMask d (masks.bind (·[dIdx]?))) ++ [],
+            vv.2 = valAt dicts (dIdx, vv.1) ∧ vv.1 < (List.replicate d.values.length 0).length := by
+          intro vv hvv
+          simp only [List.append_nil, maskedValues, List.mem_map] at hvv
+          obtain ⟨v, hv, rfl⟩ := hvv
+          have hlt := indicesAux_lt _ 0 v hv
+          rw [length_valuesMask] at hlt
+          constructor
+          · simp [valAt, hd0]
+          · simpa using hlt
+        obtain ⟨a1, ⟨ext1, e1⟩, a3, a4⟩ := mapDict_spec hash maxKey dicts dIdx _ st st1 _ mapping [] hinv hentries
+          (by intro vv hvv; simp at hvv) hm
+        obtain ⟨b1, ⟨ext2, e2⟩, b3⟩ := ih (dIdx + 1) st1 st2 rest
+          (by intro i; have := hds (i + 1); simp only [List.getElem?_cons_succ] at this; rw [this]; congr 1; omega) a1 hr
+        refine ⟨b1, ⟨ext1 ++ ext2, by rw [e2, e1, List.append_assoc]⟩, ?_⟩
+        intro i d' hd' v hv
+        cases i with
+        | zero =>
+          simp only [List.getElem?_cons_zero, Option.some.injEq] at hd'
+          subst hd'
+          simp only [Nat.add_zero] at hv
+          have hmem : (v, (d.values[v]?).join) ∈ maskedValues d (valuesMask d (masks.bind (·[dIdx]?))) ++ [] := by
+            simp only [List.append_nil, maskedValues, List.mem_map]
+            exact ⟨v, (mem_indicesAux _ 0 v).2 ⟨by omega, by simpa using hv⟩, rfl⟩
+          have := a4 _ hmem
+          simp only [List.getD_cons_zero] at this ⊢
+          rw [e2]
+          exact map_getElem?_stable _ _ _ _ _ this
+        | succ i =>
+          simp only [List.getElem?_cons_succ] at hd'
+          have := b3 i d' hd' v (by have e : dIdx + 1 + i = dIdx + (i + 1) := by omega
+                                    rw [e]; exact hv)
+          simpa using this
+
+/-- **`merge_dictionary_values` is sound**: for every bucket function (hash collisions included)
+and key width, every value slot referenced by a selected valid key is mapped to a slot of the
+merged values that holds the same `Option bytes` — in particular a null slot stays null and is
+never identified with a valid empty string. -/
+theorem mergeDictionaryValues_sound (hash : Option Bytes → Nat) (maxKey : Nat) (dicts : List Dict)
+    (masks : Option (List (List Bool))) (mappings : List (List Nat)) (merged : List (Option Bytes))
+    (h : mergeDictionaryValues hash maxKey dicts masks = some (mappings, merged)) :
+    ∀ i d, dicts[i]? = some d → ∀ v, (valuesMask d (masks.bind (·[i]?)))[v]? = some true →
+      merged[(mappings.getD i []).getD v 0]? = some ((d.values[v]?).join) := by
+  unfold mergeDictionaryValues at h
+  cases hr : mergeLoop hash maxKey masks dicts 0 { buckets := [], indices := [] } with
+  | none => rw [hr] at h; cases h
+  | some r =>
+    obtain ⟨st', ms⟩ := r
+    rw [hr] at h
+    simp only [Option.map_some, Option.some.injEq, Prod.mk.injEq] at h
+    obtain ⟨h1, h2⟩ := h
+    subst h1; subst h2
+    have := mergeLoop_spec hash maxKey dicts masks dicts 0 _ st' ms (by intro i; simp)
+      (by intro b cur v hm; simp at hm) hr
+    intro i d hd v hv
+    have := this.2.2 i d hd v (by simpa using hv)
+    rw [List.getElem?_map]
+    exact this
+
+
+/-- remapping the keys of input `i` through its key mapping and reading them against the merged
+values gives back exactly the logical rows of input `i` (concat: no key mask) -/
+theorem remapped_keys_decode (hash : Option Bytes → Nat) (maxKey : Nat) (dicts : List Dict)
+    (mappings : List (List Nat)) (merged : List (Option Bytes))
+    (h : mergeDictionaryValues hash maxKey dicts none = some (mappings, merged))
+    (i : Nat) (d : Dict) (hd : dicts[i]? = some d)
+    (hkeys : ∀ k, some k ∈ d.keys → k < d.values.length) :
+    (Dict.mk (d.keys.map (Option.map (fun k => (mappings.getD i []).getD k 0))) merged).decode = d.decode := by
+  have hs := mergeDictionaryValues_sound hash maxKey dicts none mappings merged h i d hd
+  unfold Dict.decode
+  simp only [List.map_map]
+  apply List.map_congr_left
+  intro k hk
+  cases k with
+  | none => rfl
+  | some k =>
+    simp only [Function.comp, Option.map_some, Option.bind_some]
+    have hlt := hkeys k hk
+    have hbit : (valuesMask d none)[k]? = some true := by
+      unfold valuesMask
+      rw [List.getElem?_map, List.getElem?_range hlt]
+      simp only [Option.map_some, Option.some.injEq, List.any_eq_true, List.mem_range]
+      obtain ⟨p, hp, hpk⟩ := List.getElem_of_mem hk
+      exact ⟨p, hp, by rw [List.getElem?_eq_getElem hp, hpk]; simp⟩
+    have := hs k (by simpa using hbit)
+    rw [this]
+    rfl
+
 end ArrowModel.C03
